@@ -111,6 +111,8 @@ def gen_history(rng, auto=False):
                 if sym == 'AAA' and rng.random() < 0.3 and not any(q.lot for q in posts):
                     lot = X.Amt(F(rng.randrange(100, 999), 100), 2, '$')
                 p = WPost(acct, kind, a, None, lot)
+                if lot is not None and rng.random() < 0.4:
+                    p.lot_fixed = True          # {=PRICE}: once the commodity has lots of both kinds, reports keep the fixated price apart
                 extra.append((acct, kind != 'R', sym, a.value, kind != 'V'))
                 if r < 0.6 and verdict == 'ok':
                     bal = run.balance(acct, kind != 'R', extra)
